@@ -204,7 +204,7 @@ def get_number_of_observations_per_individual(model: Model):
         dataset
 
     """
-    ser = get_observations(model).groupby(model.datainfo.id_column.name).count()
+    ser = get_observations(model).groupby(model.datainfo.id_column.name).size()
     ser.name = "observation_count"
     return ser
 
